@@ -9,7 +9,7 @@
 From Coq Require Import List NArith ZArith.
 Require mathcomp.algebra.mxalgebra mathcomp.algebra.matrix mathcomp.algebra.rat.
 Require SK.lib.RankBridge SK.proof.C19_Rank SK.proof.C19_ClassRank.
-From SK Require Import lib.Reach model.C17_Model model.C19_Model proof.C17_Proof proof.C19_Proof proof.C19_Complexes proof.C19_Linkage.
+From SK Require Import lib.Reach model.C17_Model model.C19_Model proof.C17_Proof proof.C19_Proof proof.C19_Complexes proof.C19_Linkage proof.C19_Regular proof.C19_DefOne.
 Import ListNotations.
 
 (** (1) complexes = the distinct reactant and product multisets: the list has no duplicate, a vector is in it iff it is
@@ -180,6 +180,56 @@ Theorem C19_class_nonneg : forall (net : list rxn) (iso : list str) (rc : rcert)
   (0 <= nth c (linkage_deficiencies L (map rc_r ccs)) 0%Z)%Z.
 Proof. exact SK.proof.C19_ClassRank.class_deficiency_nonneg. Qed.
 Print Assumptions C19_class_nonneg.
+
+(** (9) check_regularity: true iff every linkage class has exactly one terminal strongly connected component, i.e. it
+        contains a terminal complex (everything reachable from it leads back to it) and any two terminal complexes of the
+        class reach each other. *)
+Theorem C19_regular : forall (net : list rxn) (iso : list str),
+  let arcs := snd (complex_graph net iso) in
+  let k := length (fst (complex_graph net iso)) in
+  regular arcs k = true <->
+  forall c, In c (linkage_classes arcs k) ->
+    (exists v, In (nn v) c /\ (forall w, dpath arcs v w -> dpath arcs w v)) /\
+    (forall v w, In (nn v) c -> In (nn w) c ->
+       (forall x, dpath arcs v x -> dpath arcs x v) -> (forall x, dpath arcs w x -> dpath arcs x w) -> dpath arcs v w).
+Proof. exact net_regular. Qed.
+Print Assumptions C19_regular.
+
+(** (10) the deficiency-zero front end: true iff deficiency 0 and every reaction arc has a return path. *)
+Theorem C19_deficiency_zero : forall (net : list rxn) (iso : list str) (r : nat),
+  let arcs := snd (complex_graph net iso) in
+  let s := compute_summary net iso r in
+  check_deficiency_zero s = true <-> deficiency s = 0%Z /\ forall u v, In (u, v) arcs -> dpath arcs v u.
+Proof. exact net_deficiency_zero. Qed.
+Print Assumptions C19_deficiency_zero.
+
+(** (11) the deficiency-one front ends (check_deficiency_one, hypotheses_satisfied of run_deficiency_one_algorithm). *)
+Theorem C19_deficiency_one : forall (s : summary) (ld : list Z) (reg : bool),
+  (check_deficiency_one s ld = true <->
+   deficiency s = 1%Z /\ length ld = n_linkage s /\ Forall (fun d => (d <= 1)%Z) ld /\ zsum ld = 1%Z) /\
+  (deficiency_one_hypotheses s ld reg = true <->
+   deficiency s = 1%Z /\ zsum ld = 1%Z /\ ld <> [] /\ Forall (fun d => (d <= 1)%Z) ld /\ reg = true).
+Proof. intros s ld reg. split; [apply deficiency_one_spec | apply deficiency_one_hypotheses_spec]. Qed.
+Print Assumptions C19_deficiency_one.
+
+(** (12) when the deficiency-one front end answers true (all ranks exact): exactly one linkage class has deficiency 1 and every
+         other class has deficiency 0. *)
+Theorem C19_deficiency_one_unique_class : forall (net : list rxn) (iso : list str) (rc : rcert) (ccs : list rcert),
+  certs_ok net iso rc ccs = true ->
+  let L := linkage_classes (snd (complex_graph net iso)) (length (fst (complex_graph net iso))) in
+  let ld := linkage_deficiencies L (map rc_r ccs) in
+  check_deficiency_one (compute_summary net iso (rc_r rc)) ld = true ->
+  exists c, c < length L /\ nth c ld 0%Z = 1%Z /\ forall c', c' < length L -> c' <> c -> nth c' ld 0%Z = 0%Z.
+Proof. exact deficiency_one_unique_class. Qed.
+Print Assumptions C19_deficiency_one_unique_class.
+
+(** (13) the counts in the summary: species of the network (occurring or kept), reactions, complexes. *)
+Theorem C19_counts : forall (net : list rxn) (iso : list str) (r : nat),
+  let s := compute_summary net iso r in
+  n_species s = length (species_set net iso) /\ n_reactions s = length net /\
+  n_complexes s = length (fst (complex_graph net iso)).
+Proof. exact summary_counts. Qed.
+Print Assumptions C19_counts.
 
 (** (7) documentation of the repaired defect (/repo 0eb35ff): the walk over G.edges(r) only (out-arcs of the reaction node
         = product arcs) gives A + B -> C, C -> A + B three complexes, one of them the zero vector that is no side of any
